@@ -143,3 +143,10 @@ Proof. vm_compute. reflexivity. Qed.
    only; 25 (behind the terminator fallthrough, skip clamped) is decoded on demand *)
 Example gap_table : on_blob blob_gap (fun p => map fst (t_idx (predecode p))) = Some [27; 0].
 Proof. vm_compute. reflexivity. Qed.
+
+(* an instruction start the bitmask does not mark: move_reg followed by 27 unmarked bytes, then a marked trap at 28;
+   skip(0) is clamped at 24, so the next instruction is at 25 and the scan gives it an entry (istart_next) *)
+Definition blob_gap2 : bytes := ([0; 0; 29; 100; 0] ++ repeat 0 26 ++ [0] ++ [1; 0; 0; 16])%N.
+Example gap2_table : on_blob blob_gap2 (fun p => (map fst (t_idx (predecode p)), kreal p 25, t_blocks (predecode p)))
+  = Some ([28; 25; 0], false, [(28, (2, 3)%nat); (0, (0, 2)%nat)]).
+Proof. vm_compute. reflexivity. Qed.
